@@ -4,7 +4,8 @@
 //!    every push chain of length <= 3 over the same values, linear / linear_space for all ordered pairs of bounds over
 //!    {-1, 0, 0.5, 1, 2, 3} (either order, equal bounds) and n in {2, 3, 4, 5, 9};
 //!  * series: every non-decreasing abscissa vector of length 1..=4 over {0, 0.5, 1, 2, 3} (repeated values included)
-//!    with every ordinate vector over {-1, 0, 1, 2};  probes / bounds over {-1, 0, 0.25, 0.5, 0.75, 1, 1.5, 2, 2.5, 3, 4},
+//!    with every ordinate vector over {-1, 0, 1, 2};  probes / bounds over {-1, 0, 0.25, 0.5, 0.75, 1, 1.5, 2, 2.5, 3, 4}
+//!    (slice / split bounds additionally 1 + 2^-50 and 2 - 2^-40: a hair past / before a knot value),
 //!    levels over {-1, -0.5, 0, 0.5, 1, 1.5, 2, 3}, counts {2, 3, 4, 5, 7, 9}, spacings {0.25, 0.5, 0.75, 1, 4},
 //!    scale factors {-2, -1, -0.5, 0.5, 2} x {-1, 2}, shifts {-1.5, 0, 2};
 //!  * an "inexact stepping" family for resampling: two-knot series [0, b], b = k/10 (k = 1..=19), and [a, a + b] for
@@ -227,8 +228,12 @@ fn check_series(r: &mut Report, xs: &[f64], ys: &[f64]) {
     let a_real = guarded(|| s.area_under());
     r.check(a_real.map_or(false, |a| close(a, whole)), "area_under: sum of the trapezoids", || sd.clone());
 
-    // ---- slices
-    for (i0, &x0) in PROBES.iter().enumerate() { for &x1 in PROBES[i0..].iter() {
+    // ---- slices (bounds: the probes plus two bounds a hair past / before a knot value)
+    let mut sb: Vec<f64> = PROBES.to_vec();
+    sb.push(1.0 + (2.0f64).powi(-50));
+    sb.push(2.0 - (2.0f64).powi(-40));
+    sb.sort_by(|a, b| a.partial_cmp(b).unwrap());
+    for (i0, &x0) in sb.iter().enumerate() { for &x1 in sb[i0..].iter() {
         if x1 < x_min { continue; }    // stated precondition: the slice reaches into the domain from the left
         let d = || format!("{} between({:?}, {:?})", sd, x0, x1);
         let Some(p) = guarded(|| s.between(x0, x1)) else { r.check(false, "between: returns (no panic)", &d); continue; };
@@ -239,7 +244,7 @@ fn check_series(r: &mut Report, xs: &[f64], ys: &[f64]) {
     } }
 
     // ---- splits
-    for &x in PROBES.iter() {
+    for &x in sb.iter() {
         let d = || format!("{} split_at_x({:?})", sd, x);
         let Some((a, b)) = guarded(|| s.split_at_x(x)) else { r.check(false, "split_at_x: returns (no panic)", &d); continue; };
         let is_whole = |p: &Option<Series1>| p.as_ref().map_or(false, |p| p.x.values() == xs && p.y == ys);
@@ -381,7 +386,7 @@ fn check_inexact_stepping(r: &mut Report) {
 }
 
 pub fn run() -> Option<Report> {
-    let mut r = Report::new("constructors on every vector of length <= 4 over {-inf,-1,0,0.5,1,+inf,NaN}, push chains <= 3, linear/linear_space over bounds {-1,0,0.5,1,2,3}^2 x n in {2,3,4,5,9}; every series with 1..=4 non-decreasing abscissae over {0,0.5,1,2,3} and ordinates over {-1,0,1,2}: interpolate / between / in_interval / split_at_x / area_under / resampled_n / resampled_x / y_crossings / scaled_by / shift_by / one chain, probes and bounds over 11 values in [-1,4], 8 levels, counts {2,3,4,5,7,9}; two-knot series with inexact stepping x counts 2..=24; remove_nan with ordinates over {NaN,0,1}");
+    let mut r = Report::new("constructors on every vector of length <= 4 over {-inf,-1,0,0.5,1,+inf,NaN}, push chains <= 3, linear/linear_space over bounds {-1,0,0.5,1,2,3}^2 x n in {2,3,4,5,9}; every series with 1..=4 non-decreasing abscissae over {0,0.5,1,2,3} and ordinates over {-1,0,1,2}: interpolate / between / in_interval / split_at_x / area_under / resampled_n / resampled_x / y_crossings / scaled_by / shift_by / one chain, probes and bounds over 11 values in [-1,4] plus 1+2^-50 and 2-2^-40 for slices/splits, 8 levels, counts {2,3,4,5,7,9}; two-knot series with inexact stepping x counts 2..=24; remove_nan with ordinates over {NaN,0,1}");
     // the real code is called under catch_unwind: keep the default hook from printing one message per caught panic
     let hook = std::panic::take_hook();
     std::panic::set_hook(Box::new(|_| {}));
